@@ -498,6 +498,25 @@ func runC01(c *Ctx) {
 			entries = append(entries, f)
 		}
 	}
+	// the validation functions handed to go-sev-guest are entry points whichever way they are written (closure over
+	// the options, or a method of a struct holding them)
+	for _, m := range c.validatorMakers() {
+		rel := load.RelPkg(m)
+		if rel != "verify" && rel != "gcetcbendorsement" {
+			continue
+		}
+		for _, b := range validatorBodies(m) {
+			dup := false
+			for _, e := range entries {
+				if e == b {
+					dup = true
+				}
+			}
+			if !dup {
+				entries = append(entries, b)
+			}
+		}
+	}
 	c.S.Floor("R3", "entry points that receive or build roots of trust", 8, len(entries))
 	entrySet := map[*ssa.Function]bool{}
 	for _, f := range entries {
